@@ -5,13 +5,16 @@ From KV.Kcp Require Import Kcp Step InvAll.
 Import ListNotations.
 Local Open Scope Z_scope.
 
-Definition no_nodelay_switch (o : op) : Prop := match o with ONoDelay _ _ _ _ => False | _ => True end.
+(* NoDelay may be called at any time as long as its mode argument is negative ("leave the mode
+   unchanged": interval, fast-resend threshold and congestion-control flag may change) *)
+Definition no_nodelay_switch (o : op) : Prop := match o with ONoDelay nd _ _ _ => nd < 0 | _ => True end.
 
 (* For every sequence of calls and inputs - including forged acknowledgement timestamps and
    arbitrary clock values - the retransmission timeout stays between the configured minimum
-   (30 ms in no-delay mode, 100 ms otherwise) and 60 s, as long as the no-delay mode is not
-   re-configured mid-connection (configuration changes are outside the property's quantifier;
-   DESIGN boundary B4). *)
+   (30 ms in no-delay mode, 100 ms otherwise) and 60 s, as long as the no-delay MODE is not
+   re-configured mid-connection (NoDelay calls that leave the mode alone - a negative first
+   argument - are allowed anywhere; a mode switch leaves rx_rto at its old value until the next
+   RTT sample: DESIGN boundary B4, c18_nodelay_minrto). *)
 Theorem c18_rto_bounds :
   forall ops k k' outs, inv k -> rto_inv k -> Forall op_ok ops -> Forall no_nodelay_switch ops ->
     run k ops = Some (k', outs) ->
